@@ -4,49 +4,8 @@
 #![no_main]
 use libfuzzer_sys::fuzz_target;
 
-const DICT: [&str; 96] = [
-    "a", "b", "_0", "_1", "x", "self", "S", "T", "K", "V", "M", "f", "m", "u8", "i32", "usize", "String", "Vec", "Box", "Option",
-    "1", "2", "0x1f", "1.5", "\"s\"", "'c'", "b\"x\"", "true", "r#type", "crate", "Self", "N",
-    ",", ",", ",", "::", "::", "<", ">", "<", ">", "<<", ">>", "<=", ">=", "==", "!=", "=", "|", "||", "&", "&&", "+", "-", "*", "/", "%", "^", "!", "?", ".", "..", "..=", ":", ";", "->", "=>", "#", "@", "'a",
-    "as", "as", "fn", "dyn", "move", "if", "else", "match", "loop", "break", "return", "unsafe", "let", "mut", "ref", "in", "for", "while", "const", "where", "impl", "struct", "_", "$", "k =", "al =",
-];
-
-fn decode(data: &[u8]) -> String {
-    let mut out = String::new();
-    let mut stack: Vec<char> = vec![];
-    for &b in data.iter().take(400) {
-        match b {
-            0..=95 => {
-                out.push_str(DICT[b as usize]);
-                out.push(' ');
-            }
-            96..=111 => {
-                let (o, c) = [('(', ')'), ('[', ']'), ('{', '}')][(b as usize - 96) % 3];
-                if stack.len() < 24 {
-                    out.push(o);
-                    stack.push(c);
-                }
-            }
-            112..=127 => {
-                if let Some(c) = stack.pop() {
-                    out.push(c);
-                    out.push(' ');
-                }
-            }
-            _ => {
-                out.push_str(DICT[(b as usize) % 96]);
-                out.push(' ');
-            }
-        }
-    }
-    while let Some(c) = stack.pop() {
-        out.push(c);
-    }
-    out
-}
-
 fuzz_target!(|data: &[u8]| {
-    let text = decode(data);
+    let text = dmv::v::p16::fuzz_decode(data);
     if let Some((what, expected, observed, sig)) = dmv::v::p16::check_text(&text) {
         if sig.as_deref().is_some_and(dmv::v::fuzzrun::is_known_sig_or_combo) {
             return;
